@@ -14,6 +14,8 @@ c.ensures("isinstance(result, Url)", "returns-Url")
 c.ensures("result.port is None or (isinstance(result.port, int) and 0 <= result.port and result.port <= 65535)", "port-in-range")
 c.ensures("result.scheme is None or (isinstance(result.scheme, str) and result.scheme == result.scheme.lower())", "scheme-lower-cased")
 c.ensures("implies(not url, result.host is None and result.port is None and result.path is None)", "empty-url-empty-result")
+c.ensures("(result.path is None or isinstance(result.path, str)) and (result.query is None or isinstance(result.query, str))"
+          " and (result.host is None or isinstance(result.host, str)) and (result.auth is None or isinstance(result.auth, str))", "component-types")
 
 c = contract(f"{U}._encode_target", prop="C14")
 c.types(target="str")
